@@ -16,6 +16,7 @@ pub static STATEMACHINE: Roundtrip = Roundtrip { mode: Mode::C12 };
 pub static APPEND: Roundtrip = Roundtrip { mode: Mode::C13 };
 pub static RAWCOPY: Roundtrip = Roundtrip { mode: Mode::C14 };
 pub static ALIGN: Roundtrip = Roundtrip { mode: Mode::C17 };
+pub static ZIP64: Roundtrip = Roundtrip { mode: Mode::C08 };
 pub static CHUNKING: chunk::Chunking = chunk::Chunking;
 pub static IOFAULT: iofault::IoFault = iofault::IoFault;
 pub static HOSTILE: hostile::Hostile = hostile::Hostile;
@@ -27,7 +28,7 @@ pub static AES: crypt::AesSc = crypt::AesSc;
 pub static ZIPCRYPTO: crypt::ZipCryptoSc = crypt::ZipCryptoSc;
 
 pub fn all() -> Vec<&'static dyn Scenario> {
-    vec![&ROUNDTRIP, &ROUNDTRIP_FULL, &STATEMACHINE, &APPEND, &RAWCOPY, &ALIGN, &CHUNKING, &IOFAULT, &HOSTILE, &BITROT, &AES, &ZIPCRYPTO, &FOREIGN, &FOREIGN_Z64, &STREAM]
+    vec![&ROUNDTRIP, &ROUNDTRIP_FULL, &STATEMACHINE, &APPEND, &RAWCOPY, &ALIGN, &ZIP64, &CHUNKING, &IOFAULT, &HOSTILE, &BITROT, &AES, &ZIPCRYPTO, &FOREIGN, &FOREIGN_Z64, &STREAM]
 }
 
 pub fn lookup(name: &str) -> Option<&'static dyn Scenario> {
@@ -51,6 +52,7 @@ pub fn props() -> Vec<PropCfg> {
         PropCfg { id: "C03", level: "exploration", scenarios: vec![&FOREIGN], assumptions: vec![A_CODEC, "the independent builder's own record of what it wrote is the oracle; CP437 decoding uses the harness's own table", "format-ambiguous layouts (signature bytes at the probe positions) are skipped and counted (R2)"] },
         PropCfg { id: "C04", level: "fault_enumeration", scenarios: vec![&BITROT], assumptions: vec![A_CODEC, "own CRC-32 implementation recomputes the checksum of the returned bytes", "AE-2 entries are exempt (covered by C16)"] },
         PropCfg { id: "C05", level: "exploration", scenarios: vec![&HOSTILE], assumptions: vec!["heap bound while opening: 1024 x input length + 8 MiB, measured by a counting global allocator (R9)", "step budget 4M + 16 x length I/O calls per handle; a wall-clock watchdog covers loops that perform no I/O", "harness built with overflow-checks and debug-assertions on"] },
+        PropCfg { id: "C08", level: "exploration", scenarios: vec![&ZIP64, &FOREIGN_Z64], assumptions: vec![A_MODEL, A_CODEC, "sizes and offsets beyond 2^32 are realised on a sparse simulated disk (zero pages are not stored); huge payloads are zeros with marker bytes every 64 MiB and at the end"] },
         PropCfg { id: "C09", level: "exploration", scenarios: vec![&CHUNKING], assumptions: vec![A_CODEC, "the unfragmented (Pure policy) execution is the reference outcome"] },
         PropCfg { id: "C10", level: "exploration", scenarios: vec![&STREAM], assumptions: vec![A_CODEC, "the seekable reader on the same bytes is the reference (its fidelity is C01/C03's job)"] },
         PropCfg { id: "C11", level: "fault_enumeration", scenarios: vec![&IOFAULT], assumptions: vec![A_CODEC, "'identical to the failure-free run' is judged on entries/metadata/contents/comment, not on bytes (R7)", "programs end with an explicit finish(), so that no error is swallowed by Drop"] },
